@@ -133,16 +133,67 @@ def check(ctx: Ctx) -> None:
                                       f"{mname} numbers elements with its own enumerate index in {norm(js)}: not the circuit's identifiers")
 
     # ---------------- R16.3 -----------------------------------------------------------
+    shapes = identifier_source_rule(ctx, model, "R16.3")
+    _rest_of_r163(ctx, model, shapes)
+    recompute_rule(ctx, model, "R16.4")
+    _numbering(ctx, model, found, shapes)
+
+
+def identifier_source_rule(ctx: Ctx, model, rid: str) -> Dict[str, List[str]]:
     shapes: Dict[str, List[str]] = {}
-    for mod, qual in ((BASE, "Element.to_sympy"), (BASE, "Container.to_sympy")):
+    from ..prov import Resolver, call_args
+    for mod, qual, want_id in ((BASE, "Element.to_sympy", "identifier"), (BASE, "Container.to_sympy", "identifiers[self]")):
         fi = model.fi(mod, qual)
-        cands = [fshape(n.value) for n in walk_ordered(fi.node) if isinstance(n, ast.Assign) and norm(n.targets[0]) == "repl" and isinstance(n.value, ast.JoinedStr)]
-        want = [c for c in cands if c and "{identifier}" in c]
-        lab = [c for c in cands if c and "{self._label}" in c]
+
+        def naming(fn_node):
+            cands = [(n, fshape(n.value)) for n in walk_ordered(fn_node) if isinstance(n, ast.Assign) and norm(n.targets[0]) == "repl" and isinstance(n.value, ast.JoinedStr)]
+            want = [(n, c) for n, c in cands if c and "{identifier}" in c]
+            lab = [(n, c) for n, c in cands if c and "{self._label}" in c]
+            return want, lab
+
+        want, lab = naming(fi.node)
+        id_term = None
+        if len(want) == 1 and len(lab) == 1:
+            from ..prov import assignments
+            b = [x for x in assignments(fi.node, "identifier") if x[2] == "assign"]
+            id_term = norm(b[-1][0].value) if b else "identifier"
+        else:
+            # the naming loop may live in a helper method called from to_sympy (depth 1)
+            for c in calls_in(fi.node):
+                q = model.resolve_call(fi, c)
+                if q and q in model.funcs and q != fi.qname and model.funcs[q].module == BASE:
+                    w2, l2 = naming(model.funcs[q].node)
+                    if len(w2) == 1 and len(l2) == 1:
+                        want, lab = w2, l2
+                        hf = model.funcs[q]
+                        bound = call_args(c, hf.node, skip_self=True)
+                        arg = bound.get("identifier")
+                        given = any(k.arg == "identifier" for k in c.keywords) or len(c.args) >= [a.arg for a in hf.node.args.args if a.arg != "self"].index("identifier") + 1
+                        if arg is None:
+                            id_term = "<missing>"
+                        elif not given:
+                            id_term = f"<default {norm(arg)}>"
+                        else:
+                            id_term = norm(arg)
+                            if isinstance(arg, ast.Name):
+                                from ..prov import assignments
+                                b = [x for x in assignments(fi.node, arg.id) if x[2] == "assign"]
+                                id_term = norm(b[-1][0].value) if b else arg.id
+                        break
         if len(want) != 1 or len(lab) != 1:
-            raise AnalysisError(f"{qual}: naming f-strings not found")
-        shapes[qual] = want[0]
-        shapes[qual + ":label"] = lab[0]
+            raise AnalysisError(f"{qual}: naming f-strings not found (neither inline nor in a helper called from it)")
+        shapes[qual] = want[0][1]
+        shapes[qual + ":label"] = lab[0][1]
+        ctx.instance(rid, f"{qual}: identifier in parameter names comes from {id_term}")
+        if id_term == want_id:
+            ctx.ok()
+        else:
+            ctx.violation(rid, f"{qual}:identifier-source", mod, fi.node,
+                          f"{qual} names its parameters with identifier {id_term} instead of {want_id}: unlabelled elements of one type share variable names (not one variable per parameter)")
+    return shapes
+
+
+def _rest_of_r163(ctx: Ctx, model, shapes) -> None:
     gfi = model.fi(FIT, "generate_fit_identifiers")
     w = [fshape(n.value) for n in walk_ordered(gfi.node) if isinstance(n, ast.Assign) and isinstance(n.value, ast.JoinedStr)]
     if len(w) != 1:
@@ -239,6 +290,9 @@ def check(ctx: Ctx) -> None:
         else:
             ctx.violation("R16.3", f"{fn}:labels", mod, fi.node, f"{fn} must label components <symbol>_<label or identifier> using the circuit's identifiers")
 
+
+
+def _numbering(ctx: Ctx, model, found, shapes) -> None:
     # ---------------- R16.4 -----------------------------------------------------------
     ger = model.fi(BASE, "Connection._get_elements_recursive")
     ctx.instance("R16.4", "_get_elements_recursive is duplicate-free and includes sub-circuit elements")
@@ -287,3 +341,30 @@ def check(ctx: Ctx) -> None:
     else:
         ctx.violation("R16.4", "validate_circuit:duplicates", FIT, vc.node, "duplicate element names must be rejected by validate_circuit, called by fit_circuit before fitting starts")
     ctx.sample({"shapes": shapes, "sites": {q.split(':')[1]: [f for _, f in v] for q, v in found.items()}})
+
+
+def recompute_rule(ctx: Ctx, model, rid: str) -> None:
+    from ..cfg import returns_not_passing
+    recompute = [
+        (BASE, "Connection.generate_element_identifiers", lambda a: any(isinstance(c, ast.Call) and dotted(c.func) == "self._get_elements_recursive" for c in ast.walk(a)), "self._get_elements_recursive()"),
+        (BASE, "Container.generate_element_identifiers", lambda a: any(isinstance(c, ast.Call) and dotted(c.func) in ("self.get_subcircuits", "process_element") for c in ast.walk(a)), "self.get_subcircuits()"),
+        ("pyimpspec.circuit.circuit", "Circuit.generate_element_identifiers", lambda a: any(isinstance(c, ast.Call) and dotted(c.func) == "self._elements.generate_element_identifiers" for c in ast.walk(a)), "self._elements.generate_element_identifiers(...)"),
+        ("pyimpspec.circuit.circuit", "Circuit.get_element_name", lambda a: any(isinstance(c, ast.Call) and dotted(c.func) == "self._elements.get_element_name" for c in ast.walk(a)), "self._elements.get_element_name(...)"),
+        (BASE, "Connection._get_elements_recursive", lambda a: any(isinstance(c, ast.Call) and dotted(c.func) == "self._get_all_items_recursive" for c in ast.walk(a)), "self._get_all_items_recursive()"),
+    ]
+    for mod, qual, pred, what in recompute:
+        fi = model.fi(mod, qual)
+        ctx.instance(rid, f"{qual} recomputes from the current structure on every call ({what})")
+        bad = returns_not_passing(fi.node, pred)
+        # class-level / instance-level caches written here
+        stores = [n for n in walk_ordered(fi.node) if isinstance(n, (ast.Assign, ast.AugAssign)) and any(
+            isinstance(t, (ast.Attribute, ast.Subscript)) and dotted(t.value if isinstance(t, ast.Attribute) else t.value).startswith("self")
+            for t in (n.targets if isinstance(n, ast.Assign) else [n.target]))]
+        if bad:
+            ctx.violation(rid, f"{qual}:memoised-path", mod, bad[0],
+                          f"{qual} can return without calling {what}: identifiers/names may be stale after the circuit is edited")
+        elif stores:
+            ctx.violation(rid, f"{qual}:stores-state", mod, stores[0],
+                          f"{qual} stores into {norm(stores[0].targets[0] if isinstance(stores[0], ast.Assign) else stores[0].target)}: identifier maps must not be kept on the object")
+        else:
+            ctx.ok()
